@@ -149,6 +149,17 @@ func (f *formatter) Root(n *ast.Root) {
 	f.addIndent()
 
 	f.formatStmts(&n.Stmts)
+
+	if n.EndTkn != nil {
+		// trailing whitespace and comments go like all others; text after __halt_compiler(); stays
+		var tail []*token.Token
+		for _, ff := range n.EndTkn.FreeFloating {
+			if ff.ID == token.T_HALT_COMPILER {
+				tail = append(tail, ff)
+			}
+		}
+		n.EndTkn.FreeFloating = tail
+	}
 }
 
 func (f *formatter) Nullable(n *ast.Nullable) {
